@@ -547,8 +547,17 @@ func genRDFDedup(g *vlib.G) {
 				}
 				want := quadSet(ds.quads)
 				bad := false
-				perms(len(qs), func(ord []int) {
-					if bad || len(qs) > 6 && ord[0] > 1 {
+				each := func(f func(ord []int)) { perms(len(qs), f) }
+				if len(qs) > 6 {
+					// large datasets: the declared subset of orders
+					each = func(f func(ord []int)) {
+						for _, o := range largeOrders(len(qs)) {
+							f(o)
+						}
+					}
+				}
+				each(func(ord []int) {
+					if bad {
 						return
 					}
 					in := mkStatements(qs, ord)
